@@ -19,6 +19,9 @@ Spec language (JSON lists):
                                                   (array / rawarray): its memory image is the base's, its values are permuted
   ["longseq", "list"|"tuple", n, [exprs], [[pos, expr], ..]]   the sequence of n atoms exprs[i % len(exprs)], with the listed
                                                   positions overridden (exprs may use np and struct)
+  ["twin", "a"|"b", op, arg]                      an invocation built from the generated module stage_a / stage_b (both define the SAME
+                                                  names: score, tscore = TaskGenerator, join, tjoin, pair, tpair, build): op = task |
+                                                  tgtask | kwtask | map | currymap | mapreduce | reduce | compound | tasklet | tgtasklet
   ["rettuple", base, i, n]                        i-th tasklet of return_tuple(n) applied to base
   ["iter", base, i, n]                            i-th element of iteratetask(base, n)
   ["sub", cls, inner]                             instance of a SUBCLASS of inner's type holding inner's content (built in the order
@@ -183,6 +186,85 @@ def realise_sub(spec, rng, shared):
     else:
         parts = realise(inner, rng, shared)
     return make(parts, tag)
+
+
+# ------------------------------------------------------------------ two modules that define the same names
+TWIN_SRC = """from jug import Task, TaskGenerator
+
+
+def score(x, y=0):
+    return (TAG, 'score', x, y)
+
+
+@TaskGenerator
+def tscore(x, y=0):
+    return (TAG, 'tscore', x, y)
+
+
+def join(a, b):
+    return (TAG, a, b)
+
+
+def pair(x, y):
+    return (TAG, 'pair', x, y)
+
+
+@TaskGenerator
+def tpair(x, y):
+    return (TAG, 'tpair', x, y)
+
+
+def build(k):
+    return Task(score, k, y=Task(score, k + 1))
+"""
+TWINS = {}
+GEN_OF = {}         # id(function stripped of its TaskGenerator by jug.mapreduce) -> the generator
+COMPOUND = {}       # id(compound task) -> (task, name of the builder, args)
+
+
+def make_twins():
+    import types
+    for key, name in (('a', 'stage_a'), ('b', 'stage_b')):
+        mod = types.ModuleType(name)
+        mod.TAG = name
+        sys.modules[name] = mod
+        exec(compile(TWIN_SRC, name + '.py', 'exec'), mod.__dict__, mod.__dict__)
+        mod.tjoin = TaskGenerator(mod.join)
+        TWINS[key] = mod
+        for g in (mod.tscore, mod.tpair, mod.tjoin):
+            GEN_OF[id(g.f)] = g
+
+
+make_twins()
+
+
+def realise_twin(spec, rng, shared):
+    import jug.compound
+    _, which, op, arg = spec
+    m = TWINS[which]
+    if op == 'task':
+        return Task(m.score, arg)
+    if op == 'tgtask':
+        return m.tscore(arg)
+    if op == 'kwtask':
+        return m.tscore(1, y=arg)
+    if op == 'map':
+        return jug.mapreduce.map(getattr(m, arg[0]), [1, 2, 3, 4, 5], map_step=arg[1])
+    if op == 'currymap':
+        return jug.mapreduce.currymap(getattr(m, arg[0]), [(1, 2), (3, 4), (5, 6)], map_step=arg[1])
+    if op == 'mapreduce':
+        return jug.mapreduce.mapreduce(getattr(m, arg[0]), getattr(m, arg[1]), [1, 2, 3, 4, 5], map_step=arg[2], reduce_step=arg[3])
+    if op == 'reduce':
+        return jug.mapreduce.reduce(getattr(m, arg[0]), [1, 2, 3, 4, 5], reduce_step=arg[1])
+    if op == 'compound':
+        t = jug.compound.CompoundTask(m.build, arg)
+        COMPOUND[id(t)] = (t, '%s.build' % m.__name__, (arg,))
+        return t
+    if op == 'tasklet':
+        return Tasklet(Task(g, arg), m.score)
+    if op == 'tgtasklet':
+        return Tasklet(Task(g, arg), m.tscore)
+    raise ValueError('bad twin spec %r' % (spec,))
 
 
 tg_f = TaskGenerator(m1)
@@ -377,6 +459,8 @@ def realise(spec, rng, shared):
         return Tasklet(realise(spec[1], rng, shared), LAMBDAS[spec[2]])
     if k == 'sub':
         return realise_sub(spec, rng, shared)
+    if k == 'twin':
+        return realise_twin(spec, rng, shared)
     if k == 'rettuple':
         base = realise(spec[1], rng, shared)
         return jug.task.return_tuple(spec[3])(lambda: base)()[spec[2]]
@@ -442,6 +526,10 @@ def to_pv(o):
     REAL digest of hash_one(child) (the model's executable stream emits children in the order given)."""
     if isinstance(o, Task):
         if '__jug_hash__' in o.__dict__ and o.f.__name__ == 'compound_task_execute':
+            if id(o) in COMPOUND and COMPOUND[id(o)][0] is o:
+                # CompoundTask(build, *args) is identified as Task(build, *args)
+                _, name, args = COMPOUND[id(o)]
+                return '(mkTask %d %s [])' % (intern(pickle.dumps(name.encode('utf-8'))), plist([to_pv(a) for a in args]))
             raise ValueError('unsupported: compound task (identifier is set by CompoundTask)')
         kw = sorted(o.kwargs.items(), key=lambda kv: hash_one(kv[0]))
         return '(mkTask %d %s %s)' % (intern(pickle.dumps(o.name.encode('utf-8'))), plist([to_pv(a) for a in o.args]),
@@ -478,6 +566,9 @@ def to_pv(o):
             OBJ_DTYPES.add(d)
             return '(PObjArr %d %d %s %d%%nat)' % (d, s, plist([to_pv(x) for x in o.ravel().tolist()]), lay)
         return '(PArr %d %d %d %d%%nat)' % (d, s, intern(np.ascontiguousarray(o).tobytes()), lay)
+    if id(o) in GEN_OF and GEN_OF[id(o)].f is o and '__jug_hash__' in getattr(o, '__dict__', {}):
+        # a function stripped of its TaskGenerator by jug.mapreduce._get_function is identified as hash_one(the generator)
+        return '(mkHashOne %s)' % leaf(GEN_OF[id(o)])
     if hasattr(o, '__jug_hash__'):
         raise ValueError('unsupported object with __jug_hash__: %r' % (o,))
     return leaf(o)
